@@ -135,14 +135,18 @@ class Taint:
 			for v in e.values:
 				out |= self.of(v)
 			return out
-		if isinstance(e, (ast.List, ast.Tuple)):
+		if isinstance(e, (ast.List, ast.Tuple, ast.Set)):
 			out = set()
 			for v in e.elts:
 				out |= self.of(v.value) if isinstance(v, ast.Starred) else _coll(self.of(v))
 			return out
+		if isinstance(e, ast.DictComp):
+			for g in e.generators:
+				self._bind(g.target, _elem(self.of(g.iter)))
+			return _coll(self.of(e.key))
 		if isinstance(e, ast.Starred):
 			return self.of(e.value)
-		if isinstance(e, (ast.ListComp, ast.GeneratorExp)):
+		if isinstance(e, (ast.ListComp, ast.GeneratorExp, ast.SetComp)):
 			# bind comprehension targets first
 			for g in e.generators:
 				self._bind(g.target, _elem(self.of(g.iter)))
